@@ -86,6 +86,9 @@ pub fn check(c: &OntCase, stats: &mut Stats) -> CheckResult {
     if n.no_header {
         stats.label("obo-without-header");
     }
+    if n.long_lines {
+        stats.label("lines-longer-than-8KiB");
+    }
     match n.eof % 3 {
         1 => stats.label("files-without-final-newline"),
         2 => stats.label("files-with-blank-line-at-end"),
@@ -193,7 +196,7 @@ impl Property for C09 {
         }
     }
     fn required_labels(&self, _tier: Tier) -> Vec<&'static str> {
-        vec!["nontrivial", "NOT-rows", "disease-only-negated", "NOT-row-for-an-existing-link", "DECIPHER-rows", "typedef-stanzas", "extra-columns", "name-with-colon-space", "non-ascii-name", "transitive-loader", "compared-with-builder", "obo-without-header", "hpoa-without-column-line", "hpoa-starts-with-a-row", "files-without-final-newline", "files-with-blank-line-at-end"]
+        vec!["nontrivial", "NOT-rows", "disease-only-negated", "NOT-row-for-an-existing-link", "DECIPHER-rows", "typedef-stanzas", "extra-columns", "name-with-colon-space", "non-ascii-name", "transitive-loader", "compared-with-builder", "obo-without-header", "hpoa-without-column-line", "hpoa-starts-with-a-row", "files-without-final-newline", "files-with-blank-line-at-end", "lines-longer-than-8KiB"]
     }
     fn run_generated(&self, tier: Tier, seed: u64, n: u64, stats: &mut Stats) -> Option<(Value, Failure)> {
         run_typed(strategy(tier), seed, n, stats, check)
